@@ -3884,10 +3884,14 @@ class BoutMesh(Mesh):
             # member
             chi.ylow = 2.0 * numpy.pi * self.zShift.ylow / self.ShiftAngle.centre
             # set to NaN in divertor leg regions where chi is not valid
+            # (indices into arrays that include the y-boundary guard cells)
             for c in [chi.centre, chi.xlow, chi.ylow]:
-                c[:, : jyseps1_1 + 1] = float("nan")
-                c[:, jyseps2_1 + 1 : jyseps1_2 + 1] = float("nan")
-                c[:, jyseps2_2 + 1 :] = float("nan")
+                c[:, : jyseps1_1 + myg + 1] = float("nan")
+                if jyseps2_1 != jyseps1_2:
+                    c[:, jyseps2_1 + myg + 1 : jyseps1_2 + 3 * myg + 1] = float("nan")
+                    c[:, jyseps2_2 + 3 * myg + 1 :] = float("nan")
+                else:
+                    c[:, jyseps2_2 + myg + 1 :] = float("nan")
             chi.attributes["bout_type"] = "Field2D"
             self.writeArray("chi", chi, f)
 
